@@ -34,6 +34,8 @@ pub struct DictSrc {
     pub cates: Vec<CateSpec>,
     pub surfaces: Vec<String>,
     pub has_space: bool,
+    /// under `space_pre`: the characters that char.def puts into SPACE (one or both of U+0020, U+3000)
+    pub space_chars: Vec<char>,
 }
 
 #[derive(Clone, Debug)]
@@ -142,12 +144,24 @@ pub fn gen_lex_rows(
         } else {
             surf
         };
-        out.push_str(&format!("{cell},{l},{r},{c},{}\n", feature(rng, i)));
+        let feat = feature(rng, i);
+        out.push_str(&format!("{cell},{l},{r},{c},{feat}\n"));
+        // now and then the same row again with another (often cheaper) cost: rows that differ only in their cost are
+        // distinct words
+        if rng.chance(1, 8) {
+            out.push_str(&format!("{cell},{l},{r},{},{feat}\n", c - 1 - small_cost(rng, mag).abs()));
+        }
     }
     out
 }
 
 pub fn gen_chardef(rng: &mut Rng, cfg: &GenCfg) -> (String, Vec<CateSpec>, bool) {
+    let (s, c, h, _) = gen_chardef_sp(rng, cfg);
+    (s, c, h)
+}
+
+/// As `gen_chardef`, also returning the characters of the SPACE category under `space_pre`.
+pub fn gen_chardef_sp(rng: &mut Rng, cfg: &GenCfg) -> (String, Vec<CateSpec>, bool, Vec<char>) {
     let mut cates = vec![CateSpec {
         name: "DEFAULT".into(),
         invoke: rng.chance(1, 2),
@@ -199,13 +213,28 @@ pub fn gen_chardef(rng: &mut Rng, cfg: &GenCfg) -> (String, Vec<CateSpec>, bool)
             defined.push(c.clone());
         }
     }
+    let mut space_chars: Vec<char> = vec![];
     let names: Vec<String> = cates.iter().map(|c| c.name.clone()).collect();
     let non_space: Vec<String> =
         names.iter().filter(|n| n.as_str() != "SPACE").cloned().collect();
     // ranges
     if has_space {
         if cfg.space_pre {
-            s.push_str("0x0020 SPACE\n0x3000 SPACE\n");
+            // the precondition of C12 does not say WHICH characters are spaces: both, only U+0020, or only U+3000
+            match rng.below(4) {
+                0 => {
+                    s.push_str("0x0020 SPACE\n");
+                    space_chars.push(' ');
+                }
+                1 => {
+                    s.push_str("0x3000 SPACE\n");
+                    space_chars.push('\u{3000}');
+                }
+                _ => {
+                    s.push_str("0x0020 SPACE\n0x3000 SPACE\n");
+                    space_chars.extend([' ', '\u{3000}']);
+                }
+            }
         } else {
             s.push_str("0x0020 SPACE");
             if rng.chance(1, 4) {
@@ -237,19 +266,21 @@ pub fn gen_chardef(rng: &mut Rng, cfg: &GenCfg) -> (String, Vec<CateSpec>, bool)
         if cfg.space_pre && (a <= 0x20 && a + 4 >= 0x20) && line.contains("..") {
             continue;
         }
+        let _ = &space_chars;
         s.push_str(&format!("{line} {}", cs.join(" ")));
         if rng.chance(1, 6) {
             s.push_str(" # note");
         }
         s.push('\n');
     }
-    (s, defined, has_space)
+    (s, defined, has_space, space_chars)
 }
 
 pub fn gen_unk(rng: &mut Rng, cates: &[CateSpec], cfg: &GenCfg, nl: usize, nr: usize) -> String {
     let mut rows: Vec<String> = vec![];
-    for c in cates {
-        let n = if cfg.cover_unk { 1 + rng.below(2) + rng.below(2) } else { rng.below(3) };
+    for (ci, c) in cates.iter().enumerate() {
+        let last = ci + 1 == cates.len();
+        let n = if cfg.cover_unk { 1 + rng.below(2) + rng.below(2) } else if last && rng.chance(1, 2) { 0 } else { rng.below(3) };
         for j in 0..n {
             rows.push(format!(
                 "{},{},{},{},unk-{}-{}\n",
@@ -379,7 +410,7 @@ pub fn gen_dict(rng: &mut Rng, cfg: &GenCfg) -> DictSrc {
     let kind = cfg.kind.unwrap_or_else(|| rng.below(3) as u8);
     let nr = 1 + rng.below(cfg.max_ids);
     let nl = 1 + rng.below(cfg.max_ids);
-    let (chardef, cates, has_space) = gen_chardef(rng, cfg);
+    let (chardef, cates, has_space, space_chars) = gen_chardef_sp(rng, cfg);
     let unk = gen_unk(rng, &cates, cfg, nl, nr);
     let mut pool = vec![];
     let nrows = 1 + rng.below(8);
@@ -400,7 +431,7 @@ pub fn gen_dict(rng: &mut Rng, cfg: &GenCfg) -> DictSrc {
     let (matrix, right, left, cost) = if kind == 0 {
         (gen_matrix(rng, nr, nl, cfg.cost_mag), String::new(), String::new(), String::new())
     } else {
-        let k = if kind == 2 { 8 + rng.below(9) } else { rng.below(12) };
+        let k = if kind == 2 { 8 + rng.below(9) } else if rng.chance(1, 3) { 9 + rng.below(11) } else { rng.below(12) };
         // large magnitudes (profile c01, a fifth of the dictionaries): the raw connector's entries are i32 and may lie far
         // outside the i16 range of matrix.def; the dual connector keeps small entries (its pre-summed i16 part must not
         // saturate, see DESIGN 10.2: the template split is hash-order dependent there)
@@ -422,6 +453,7 @@ pub fn gen_dict(rng: &mut Rng, cfg: &GenCfg) -> DictSrc {
         cates,
         surfaces: pool,
         has_space,
+        space_chars,
     }
 }
 
